@@ -4,6 +4,7 @@ import Mimic.ResultsTables
 import MimicProofs.Types
 import MimicProofs.ResultsCode
 import Mimic.Extracted.Protocol
+import MimicProofs.HandlersCode
 /-!
 # C05 — Clients decode exactly the values the application returned (text and binary)
 
@@ -183,5 +184,40 @@ theorem code_binary_row_layout {C W : Type} (enc : C → W → Option Mimic.Py.B
 /-- non-vacuity at code level: a row (7, NULL, "ab") through the translated builder with toy encoders -/
 example : Mimic.Extracted.RowsCode.make_binary_resultrow (S := Unit) (C := Unit) (W := Mimic.Py.Bytes) (fun _ w => some w)
     [some [7], none, some [97, 98]] [(), (), ()] = some [0, 8, 7, 97, 98] := by decide +kernel
+
+/-! ### every row reaches the wire exactly once and in order (translated handlers, `Mimic.Extracted.HandlersCode`) -/
+section handlers
+open Mimic.Extracted.HandlersCode MimicProofs.HandlersCode
+variable {S : Type} [DecidableEq S]
+
+/-- **COM_QUERY delivers the application's rows exactly once, in order, and counts them**: for every result set whose row
+    source does not raise, the row packets written by `handle_query` (translated, `text_resultset` inlined) between the
+    metadata and the terminator are exactly the packets of the source, in its order, and the terminator's affected-rows
+    counter is their number. -/
+theorem code_query_rows_in_order (E : Mimic.Py.Env S) (coldef : Nat → Nat → Mimic.Py.Bytes) (app : S → Option (ResultSet S)) (c : Connection S)
+    (data : Mimic.Py.Bytes) (q : Mimic.Extracted.ParsersCode.ComQuery S) (rs : ResultSet S)
+    (hp : Mimic.Extracted.ParsersCode.parse_com_query E c.capabilities c.client_charset data = some q) (ha : app q.sql = some rs)
+    (hne : rs.columns.isEmpty = false) (hb : rs.rows.boom = false) :
+    ∃ (c' : Connection S) (pre : List Ev) (l w2 fl : Nat), handle_query E coldef app c data = .ok c' ∧
+      c'.out = c.out ++ pre ++ rs.rows.rows.map (fun p => Ev.write p false)
+                 ++ [Ev.write (ok_or_eof c rs.rows.rows.length l w2 fl) false, Ev.drain] := by
+  have h := handle_query_spec E coldef app c data
+  simp only [hp, ha, hne, Bool.false_eq_true, if_false, hb] at h
+  obtain ⟨w, f, l, w2, fl, h⟩ := h
+  exact ⟨_, queryMeta coldef c rs ++ (if deprecate_eof c then [] else [Ev.write (eof c w f) false]), l, w2, fl, h, by simp only [List.append_assoc]⟩
+
+/-- the same for COM_STMT_EXECUTE without cursor (binary protocol: every packet drained) -/
+theorem code_execute_rows_in_order (coldef : Nat → Nat → Mimic.Py.Bytes) (parse : Connection S → Mimic.Py.Bytes → Option (ComStmtExecute S))
+    (app : S → Option (ResultSet S)) (c : Connection S) (data : Mimic.Py.Bytes) (x : ComStmtExecute S) (rs : ResultSet S)
+    (hp : parse c data = some x) (ha : app x.sql = some rs) (hne : rs.columns.isEmpty = false) (hu : x.use_cursor = false)
+    (hb : rs.rows.boom = false) :
+    ∃ (c' : Connection S) (pre : List Ev) (a l w2 fl : Nat), handle_stmt_execute coldef parse app c data = .ok c' ∧
+      c'.out = c.out ++ pre ++ rs.rows.rows.map (fun p => Ev.write p true) ++ [Ev.write (ok_or_eof c a l w2 fl) true] := by
+  have h := handle_stmt_execute_spec coldef parse app c data
+  simp only [hp, ha, hne, hu, Bool.false_eq_true, if_false, hb] at h
+  obtain ⟨w, f, a, l, w2, fl, h⟩ := h
+  exact ⟨_, execMeta coldef c rs ++ (if deprecate_eof c then [] else [Ev.write (eof c w f) true]), a, l, w2, fl, h, by simp only [List.append_assoc]⟩
+
+end handlers
 
 end MimicProps.C05
